@@ -144,8 +144,52 @@ def to_case(ob):
     return out + c05_tri.standard_cases("fbank")
 
 
+# ------------------------------------------------------------------------------------------ get_frequency_response
+# As for the triangular bank (contracts/filters_tri.py), with the square root of the mel-domain triangle as the per-bin value.
+def setup_frequency(half):
+    def _setup(ex, st):
+        setup_method(ex, st)
+        st.env["half"] = half
+    return _setup
+
+
+def contract_frequency(half):
+    consts = {"MTRI": SpecFn(_mtri), "SQRT": SpecFn(lambda ev, x: api.SQRT(to_real(x))), "np.float64": Opaque("float64", "dtype")}
+    consts["MIRR"] = SpecFn(lambda ev: z3.BoolVal(False) if half else z3.Not(Zb(ev.st.fields[("self", "_analytic")])))
+    consts["HALF"] = SpecFn(lambda ev: z3.BoolVal(bool(half)))
+    consts["DFT"] = SpecFn(lambda ev: (z3.If(ev.ex.ctx["w"] % 2 == 1, (ev.ex.ctx["w"] + 1) / 2, ev.ex.ctx["w"] / 2 + 1)) if half else ev.ex.ctx["w"])
+    cell = "ite(left_idx <= j and j < {ub}, SQRT(MTRI(j)), ite(MIRR() and j >= 1 and left_idx <= width - j and width - j < {ub}, SQRT(MTRI(width - j)), 0))"
+
+    def h_sqrt(ex, st, args, kwargs, node, ev):
+        za = to_real(args[0])
+        ex.oblige(st, za >= 0, f"sqrt_of_nonnegative.L{node.lineno - ex.fx.lineno}", "wd", node.lineno)
+        return api.SQRT(za)
+
+    c = Contract(
+        target=f"filters:{CLS}.get_frequency_response", uses=["A-REAL", "A-PYSEM", "A-MATH"],
+        consts=consts, handlers=dict(SCALE_HANDLERS, **{"np.sqrt": h_sqrt}),
+        loops={0: LoopSpec(kind="for", var="idx", invariant=[
+            ("range", "left_idx <= idx and 0 <= left_idx and len(res) == DFT() and dft_size == DFT() and idx <= max(left_idx, min(dft_size, right_idx + 1))"),
+            ("band_ends_at_or_below_nyquist", "2 * right_idx <= width"),
+            ("done", "forall(j, 0, len(res), res[j] == " + cell.format(ub="idx") + ")"),
+        ])},
+        ensures=[
+            ("documented_length", "len(result) == DFT()"),
+            ("sqrt_mel_triangle_where_no_mirror_image_is_added", "implies(not MIRR(), forall(k, 0, len(result), result[k] == SQRT(MTRI(k))))"),
+            ("real_bank_full_response_is_hermitian", "implies(MIRR(), forall(k, 1, width, result[k] == result[width - k]))"),
+            ("real_bank_full_response_holds_the_triangle_on_the_leading_bins", "implies(MIRR(), forall(k, 0, width // 2 + 1, result[k] == SQRT(MTRI(k))))"),
+            ("analytic_bank_vanishes_above_nyquist", "implies(not MIRR() and not HALF(), forall(k, 0, width, implies(2 * k > width, result[k] == 0)))"),
+        ],
+    )
+    return c
+
+
 def generate(prop, which, label):
     from contracts.registry import run_contract
+    if which == "frequency":
+        half = label == "half"
+        return run_contract(prop, ("filters", f"{CLS}.get_frequency_response"), contract_frequency(half), [(label, setup_frequency(half))], name="fbank_frequency",
+                            fname="Fbank.get_frequency_response")
     if which == "init":
         hn = label == "high_none"
         return run_contract(prop, ("filters", f"{CLS}.__init__"), contract_init(hn), [(label, setup_init(hn))], name="fbank_init", fname="Fbank.__init__")
@@ -155,4 +199,4 @@ def generate(prop, which, label):
     raise KeyError(which)
 
 
-LABELS = {"init": ["high_none", "high_given"], "truncated": [""]}
+LABELS = {"init": ["high_none", "high_given"], "truncated": [""], "frequency": ["full", "half"]}
